@@ -1,49 +1,14 @@
-(* Proofs/TypeCheckTerm.v — C09: the work loop of the type checker terminates within an explicit
-   bound, on every object graph (cyclic or not) and every specification (recursive or not). *)
-From PV Require Import Model.TypeCheck.
+(* Proofs/TypeCheckTerm.v — C09: the work loop of the (repaired) type checker terminates within an
+   explicit bound, on every object graph (cyclic or not) and every specification (recursive or not).
+
+   Measure: (number of universe pairs not yet among the failed alternatives, number of universe
+   pairs not on the trail of examined checks, weight of the pending stack), lexicographically,
+   packed into one number [Phi].  The trail shrinks when an alternative of a disjunct fails
+   (rollback), but then the failed alternative is new among the failed ones: it is the pair examined
+   first under that alternative (invariant [stack_ok]), it is on the trail, and the trail and the
+   failed alternatives are disjoint. *)
+From PV Require Import Model.TypeCheck Proofs.TypeCheckEq Proofs.TypeCheckLoop.
 From Coq Require Import Lia Arith.
-
-(* ---------- reflexivity of the memo's equality (all the termination argument needs) ---------- *)
-Lemma bytes_eqb_refl s : bytes_eqb s s = true.
-Proof. apply bytes_eqb_eq. reflexivity. Qed.
-
-Lemma obj_eqb_refl : forall o, obj_eqb o o = true.
-Proof.
-  fix IH 1. intros [ | b | z | n d | s | s | s | n g | l | l | l c]; simpl;
-    rewrite ?Bool.eqb_reflx, ?Z.eqb_refl, ?N.eqb_refl, ?bytes_eqb_refl; try reflexivity.
-  - induction l as [|x r IHr]; [reflexivity|]. rewrite IH. exact IHr.
-  - induction l as [|[k x] r IHr]; [reflexivity|]. rewrite bytes_eqb_refl, IH. exact IHr.
-  - rewrite Bool.andb_true_r.
-    induction l as [|[k x] r IHr]; [reflexivity|]. rewrite bytes_eqb_refl, IH. exact IHr.
-Qed.
-
-Lemma kspec_eqb_refl o : kspec_eqb o o = true.
-Proof. destruct o; reflexivity. Qed.
-Lemma prim_eqb_refl p : prim_eqb p p = true.
-Proof. destruct p; reflexivity. Qed.
-Lemma onat_eqb_refl o : onat_eqb o o = true.
-Proof. destruct o; simpl; [apply Nat.eqb_refl | reflexivity]. Qed.
-
-Lemma chk_eqb_refl : forall c, chk_eqb c c = true.
-Proof.
-  fix IH 1. intros [t p i | n]; [|apply bytes_eqb_refl].
-  change (ty_eqb t t = true).
-  destruct t as [ | p' | e sz | es | ents star | ents | alts]; simpl.
-  - reflexivity.
-  - apply prim_eqb_refl.
-  - rewrite IH, onat_eqb_refl. reflexivity.
-  - induction es as [|x r IHr]; [reflexivity|]. rewrite IH. exact IHr.
-  - apply andb_true_intro; split.
-    + induction ents as [|[k c o] r IHr]; [reflexivity|].
-      simpl. rewrite bytes_eqb_refl, IH, kspec_eqb_refl. exact IHr.
-    + destruct star as [[c o]|]; [|reflexivity]. rewrite IH, kspec_eqb_refl. reflexivity.
-  - induction ents as [|[k c o] r IHr]; [reflexivity|].
-    simpl. rewrite bytes_eqb_refl, IH, kspec_eqb_refl. exact IHr.
-  - induction alts as [|x r IHr]; [reflexivity|]. rewrite IH. exact IHr.
-Qed.
-
-Lemma pend_eqb_refl p : pend_eqb p p = true.
-Proof. unfold pend_eqb. rewrite obj_eqb_refl, chk_eqb_refl. reflexivity. Qed.
 
 (* ---------- sub-term closure ---------- *)
 Section Subterms.
@@ -173,8 +138,20 @@ Proof.
     eapply (subterms_closed kids_chk chk_size chk_size_pos kid_chk_size); [|exact H|exact Hk]. lia.
 Qed.
 
+(* the four parts of the universe of checks *)
+Lemma UC_parts c : In c UC <->
+  In c UC0 \/ (exists x, In x UC0 /\ c = allowc x) \/ (exists x, In x UC0 /\ c = ownc x) \/
+  (exists x, In x UC0 /\ c = allowc (ownc x)).
+Proof.
+  unfold UC, uni_chks. fold UC0. rewrite !in_app_iff, !in_map_iff. split.
+  - intros [H|[(x & E & H)|[(x & E & H)|(x & E & H)]]]; [left; exact H | right; left | right; right; left | right; right; right];
+      exists x; split; auto.
+  - intros [H|[(x & H & E)|[(x & H & E)|(x & H & E)]]]; [left; exact H | right; left | right; right; left | right; right; right];
+      exists x; split; auto.
+Qed.
+
 Lemma UC0_sub c : In c UC0 -> In c UC.
-Proof. intros H. apply in_or_app. left. exact H. Qed.
+Proof. intros H. apply UC_parts. left. exact H. Qed.
 
 Lemma UC_root : In c0 UC.
 Proof. apply UC0_sub. apply in_or_app. left. apply subterms_self. apply chk_size_pos. Qed.
@@ -183,20 +160,40 @@ Lemma kids_allowc c : kids_chk (allowc c) = kids_chk c.
 Proof. destruct c; reflexivity. Qed.
 Lemma allowc_idem c : allowc (allowc c) = allowc c.
 Proof. destruct c; reflexivity. Qed.
+Lemma kids_ownc c : kids_chk (ownc c) = [].
+Proof. destruct c; reflexivity. Qed.
+Lemma ownc_idem c : ownc (ownc c) = ownc c.
+Proof. destruct c; reflexivity. Qed.
+Lemma ownc_allowc c : ownc (allowc c) = allowc (ownc c).
+Proof. destruct c; reflexivity. Qed.
 
 Lemma UC_kids c k : In c UC -> In k (kids_chk c) -> In k UC.
 Proof.
-  intros H Hk. apply in_app_or in H. destruct H as [H|H].
+  intros H Hk. apply UC_parts in H. destruct H as [H|[(x & H & E)|[(x & H & E)|(x & H & E)]]]; subst.
   - apply UC0_sub. eapply UC0_kids; eauto.
-  - apply in_map_iff in H. destruct H as (c' & E & H). subst c. rewrite kids_allowc in Hk.
-    apply UC0_sub. eapply UC0_kids; eauto.
+  - rewrite kids_allowc in Hk. apply UC0_sub. eapply UC0_kids; eauto.
+  - rewrite kids_ownc in Hk. destruct Hk.
+  - rewrite kids_allowc, kids_ownc in Hk. destruct Hk.
 Qed.
 
 Lemma UC_allow c : In c UC -> In (allowc c) UC.
 Proof.
-  intros H. apply in_app_or in H. apply in_or_app. right. destruct H as [H|H].
-  - apply in_map. exact H.
-  - apply in_map_iff in H. destruct H as (c' & E & H). subst c. rewrite allowc_idem. apply in_map. exact H.
+  intros H. apply UC_parts in H. apply UC_parts.
+  destruct H as [H|[(x & H & E)|[(x & H & E)|(x & H & E)]]]; subst.
+  - right; left. exists c. auto.
+  - right; left. exists x. rewrite allowc_idem. auto.
+  - right; right; right. exists x. auto.
+  - right; right; right. exists x. rewrite allowc_idem. auto.
+Qed.
+
+Lemma UC_own c : In c UC -> In (ownc c) UC.
+Proof.
+  intros H. apply UC_parts in H. apply UC_parts.
+  destruct H as [H|[(x & H & E)|[(x & H & E)|(x & H & E)]]]; subst.
+  - right; right; left. exists c. auto.
+  - right; right; right. exists x. rewrite ownc_allowc. auto.
+  - right; right; left. exists x. rewrite ownc_idem. auto.
+  - right; right; right. exists x. rewrite ownc_allowc, ownc_idem. auto.
 Qed.
 
 Lemma tctx_get_in n r : tctx_get tc n = Some r -> exists e, In e tc /\ snd e = r.
@@ -214,9 +211,6 @@ Proof.
   apply subterms_self. apply chk_size_pos.
 Qed.
 
-Lemma rep_chk_eta t p i : rep_chk (t, p, i) = CRep t p i.
-Proof. reflexivity. Qed.
-
 (* resolving a check of the universe stays inside *)
 Lemma resolve_in c r : In c UC -> resolve tc c = Some r ->
   In (rep_chk r) UC /\ In (allow_indirect r) UC /\ (forall k, In k (kids_ty (r_ty r)) -> In k UC).
@@ -230,13 +224,116 @@ Proof.
   - apply UC_allow in Hr. destruct r as [[t p] i]. exact Hr.
   - intros k Hk. apply (UC_kids (rep_chk r)); [exact Hr|]. destruct r as [[t p] i]. exact Hk.
 Qed.
+
+(* the value of a reference is in the universe *)
+Lemma lookup_value_in : forall f seen id o, lookup_value oc f seen id = Some o -> In o UO.
+Proof.
+  induction f as [|f IH]; intros seen id o E; simpl in E; [discriminate|].
+  destruct (existsb (id_eqb id) seen); [discriminate|].
+  destruct (octx_get oc id) as [x|] eqn:G; [|discriminate].
+  destruct x; try solve [inversion E; subst; eapply UO_lookup; eauto].
+  eapply IH. exact E.
+Qed.
+
+Lemma ref_value_in n g : In (ref_value oc n g) UO.
+Proof.
+  unfold ref_value. destruct (lookup_value oc _ [] (n, g)) as [o|] eqn:E; [eapply lookup_value_in; eauto | apply UO_null].
+Qed.
 End Universe.
 
-(* ---------- weights ---------- *)
+(* ---------- small arithmetic / list facts ---------- *)
 Lemma max_list_in (l : list nat) x : In x l -> x <= max_list l.
 Proof.
   induction l as [|y r IH]; intros H; [destruct H|]. simpl. destruct H as [H|H]; [subst; lia|].
   specialize (IH H). lia.
+Qed.
+
+Lemma filter_len_le {X} (f : X -> bool) l : len (filter f l) <= len l.
+Proof. unfold len. induction l as [|x r IH]; simpl; [lia|]. destruct (f x); simpl; lia. Qed.
+
+Lemma filter_lt {X} (f g : X -> bool) l x :
+  (forall y, g y = true -> f y = true) -> In x l -> f x = true -> g x = false ->
+  len (filter g l) + 1 <= len (filter f l).
+Proof.
+  intros Hi Hx Hf Hg. unfold len. induction l as [|y r IH]; [destruct Hx|].
+  simpl. destruct Hx as [Hx|Hx].
+  - subst y. rewrite Hf, Hg. simpl.
+    clear IH. induction r as [|z r IH]; simpl; [lia|].
+    destruct (g z) eqn:Gz; [rewrite (Hi z Gz); simpl; lia | destruct (f z); simpl; lia].
+  - specialize (IH Hx). destruct (g y) eqn:Gy; [rewrite (Hi y Gy); simpl; lia | destruct (f y); simpl; lia].
+Qed.
+
+Lemma filter_le {X} (f g : X -> bool) l :
+  (forall y, g y = true -> f y = true) -> len (filter g l) <= len (filter f l).
+Proof.
+  intros Hi. unfold len. induction l as [|y r IH]; simpl; [lia|].
+  destruct (g y) eqn:Gy; [rewrite (Hi y Gy); simpl; lia | destruct (f y); simpl; lia].
+Qed.
+
+(* ---------- trails ---------- *)
+Definition trail_at (ex : list pend) (m : nat) : option pend := nth_error (rev ex) m.
+
+Lemma trail_at_cons p ex m : m < len ex -> trail_at (p :: ex) m = trail_at ex m.
+Proof.
+  intros H. unfold trail_at. simpl. rewrite nth_error_app1; [reflexivity|]. rewrite rev_length. exact H.
+Qed.
+Lemma trail_at_new p ex : trail_at (p :: ex) (len ex) = Some p.
+Proof.
+  unfold trail_at. simpl. rewrite nth_error_app2; rewrite rev_length; [|unfold len; lia].
+  unfold len. rewrite Nat.sub_diag. reflexivity.
+Qed.
+Lemma trail_at_in ex m q : trail_at ex m = Some q -> In q ex.
+Proof. unfold trail_at. intros H. apply nth_error_In in H. apply in_rev. exact H. Qed.
+
+Lemma rollback_len ex m : m <= len ex -> len (rollback ex m) = m.
+Proof. intros H. unfold rollback, len in *. rewrite skipn_length. lia. Qed.
+Lemma rollback_all ex m : len ex <= m -> rollback ex m = ex.
+Proof. intros H. unfold rollback. replace (len ex - m) with 0 by lia. reflexivity. Qed.
+Lemma rollback_in ex m e : In e (rollback ex m) -> In e ex.
+Proof. unfold rollback. apply In_skipn. Qed.
+
+Lemma rev_skipn {X} (l : list X) n : rev (skipn n l) = firstn (List.length l - n) (rev l).
+Proof.
+  revert n. induction l as [|x l IH]; intros n; [rewrite skipn_nil; destruct (0 - n); reflexivity|].
+  destruct n as [|n]; simpl skipn.
+  - rewrite Nat.sub_0_r. rewrite <- rev_length. rewrite firstn_all. reflexivity.
+  - rewrite IH. simpl. rewrite firstn_app. rewrite rev_length.
+    replace (List.length l - n - List.length l) with 0 by lia. simpl. rewrite app_nil_r. reflexivity.
+Qed.
+
+Lemma nth_error_firstn_lt {X} (l : list X) : forall n j, j < n -> nth_error (firstn n l) j = nth_error l j.
+Proof.
+  induction l as [|x l IH]; intros n j H; [rewrite firstn_nil; reflexivity|].
+  destruct n; [lia|]. destruct j; [reflexivity|]. simpl. apply IH. lia.
+Qed.
+
+Lemma trail_at_rollback ex m j : m <= len ex -> j < m -> trail_at (rollback ex m) j = trail_at ex j.
+Proof.
+  intros Hm Hj. unfold trail_at, rollback. rewrite rev_skipn. unfold len in *.
+  replace (List.length ex - (List.length ex - m)) with m by lia.
+  apply nth_error_firstn_lt. exact Hj.
+Qed.
+
+Lemma NoDup_skipn {X} (l : list X) n : NoDup l -> NoDup (skipn n l).
+Proof.
+  revert n. induction l as [|x l IH]; intros n H; [rewrite skipn_nil; constructor|].
+  destruct n; [exact H|]. simpl. apply IH. inversion H. assumption.
+Qed.
+
+(* the element at trail position m is not among the m older ones *)
+Lemma trail_at_not_older ex m q : NoDup ex -> m <= len ex -> trail_at ex m = Some q -> ~ In q (rollback ex m).
+Proof.
+  intros ND Hm H Hin. unfold trail_at in H. unfold rollback in Hin.
+  apply in_rev in Hin. rewrite rev_skipn in Hin. unfold len in *.
+  replace (List.length ex - (List.length ex - m)) with m in Hin by lia.
+  apply NoDup_rev in ND.
+  assert (Hlt : m < List.length (rev ex)) by (apply nth_error_Some; congruence).
+  apply (In_nth_error) in Hin. destruct Hin as (j & Hj).
+  assert (j < m).
+  { assert (nth_error (firstn m (rev ex)) j <> None) by congruence. apply nth_error_Some in H0.
+    rewrite firstn_length in H0. lia. }
+  rewrite nth_error_firstn_lt in Hj by exact H0.
+  rewrite NoDup_nth_error in ND. specialize (ND j m ltac:(lia)). rewrite Hj, H in ND. specialize (ND eq_refl). lia.
 Qed.
 
 Lemma mul_step a b m : a + 1 <= b -> a * m + m <= b * m.
@@ -262,568 +359,549 @@ Proof. intros H. apply max_list_in. apply (in_map (fun c => len (kids_chk c))). 
 Lemma fan_o_le o : In o UO -> len (kids_obj o) <= FO.
 Proof. intros H. apply max_list_in. apply (in_map (fun o => len (kids_obj o))). exact H. Qed.
 
+(* ---------- weights ---------- *)
+Definition wt (p : pend) : nat :=
+  match snd p with CRep (TDisj set) _ _ => 3 + len set | _ => 1 end.
 Definition front_w (p : pend) (idx : nat) : nat :=
-  match snd p with CRep (TDisj set) _ _ => 1 + (1 + len set - idx) | _ => 1 end.
-Definition set_w (s : list pend * nat) : nat :=
-  match fst s with [] => 1 | p :: r => 1 + front_w p (snd s) + K * len r end.
+  match snd p with
+  | CRep (TDisj set) _ _ => if Nat.eqb idx 0 then 3 + len set else 1 + (1 + len set - idx)
+  | _ => 1
+  end.
+Definition sumw (l : list pend) : nat := fold_right (fun p n => wt p + n) 0 l.
+Definition set_w (s : pset) : nat :=
+  match fst (fst s) with [] => 1 | p :: r => 1 + front_w p (snd (fst s)) + sumw r end.
 Definition W (td : todo) : nat := fold_right (fun s n => set_w s + n) 0 td.
 
-Definition set_ok (s : list pend * nat) : Prop := forall p, In p (fst s) -> inU p.
+Definition set_ok (s : pset) : Prop := forall p, In p (fst (fst s)) -> inU p.
 Definition todo_ok (td : todo) : Prop := Forall set_ok td.
 
 Lemma front_w_pos p i : 1 <= front_w p i.
-Proof. unfold front_w. destruct (snd p) as [[ | | | | | | ] ? ? | ]; lia. Qed.
-
-Lemma front_w_le p i : inU p -> front_w p i <= K.
+Proof. unfold front_w. destruct (snd p) as [[ | | | | | | ] ? ? | ]; try lia. destruct (Nat.eqb i 0); lia. Qed.
+Lemma front_w_wt p i : front_w p i <= wt p.
+Proof. unfold front_w, wt. destruct (snd p) as [[ | | | | | | ] ? ? | ]; try lia. destruct (Nat.eqb i 0); lia. Qed.
+Lemma wt_le p : inU p -> wt p <= K.
 Proof.
-  intros [_ H]. unfold front_w, K, bound_K. destruct (snd p) as [[ | | | | | | alts] ? ? | ] eqn:E; try lia.
+  intros [_ H]. unfold wt, K, bound_K. destruct (snd p) as [[ | | | | | | alts] ? ? | ] eqn:E; try lia.
   pose proof (fan_c_le _ H) as L. simpl in L. lia.
 Qed.
+Lemma sumw_le l : (forall p, In p l -> inU p) -> sumw l <= K * len l.
+Proof.
+  induction l as [|p r IH]; intros H; simpl; [lia|].
+  pose proof (wt_le p (H p (or_introl eq_refl))). specialize (IH (fun q Hq => H q (or_intror Hq))).
+  unfold len in *. simpl. lia.
+Qed.
+Lemma sumw_app a b : sumw (a ++ b) = sumw a + sumw b.
+Proof. induction a as [|p r IH]; simpl; [reflexivity|]. rewrite IH. lia. Qed.
 
 Lemma set_w_pos s : 1 <= set_w s.
-Proof. unfold set_w. destruct (fst s); lia. Qed.
+Proof. unfold set_w. destruct (fst (fst s)); lia. Qed.
 
-(* removing the front element strictly lowers the weight of a set, whatever the index becomes *)
-Lemma set_w_tail p r i j : set_ok (p :: r, i) -> set_w (r, j) < set_w (p :: r, i).
+(* removing the front element strictly lowers the weight of a set, whatever index and mark become *)
+Lemma set_w_tail p r i m j m' : set_w (r, j, m') < set_w (p :: r, i, m).
 Proof.
-  intros H. unfold set_w. simpl. pose proof (front_w_pos p i).
-  destruct r as [|q r']; [lia|].
-  assert (inU q) by (apply H; simpl; auto).
-  pose proof (front_w_le q j H1). simpl. lia.
+  unfold set_w. simpl. pose proof (front_w_pos p i).
+  destruct r as [|q r']; [lia|]. pose proof (front_w_wt q j). simpl. lia.
 Qed.
 
-Lemma set_ok_tail p r i j : set_ok (p :: r, i) -> set_ok (r, j).
-Proof. intros H q Hq. apply H. simpl. right. exact Hq. Qed.
-Lemma set_ok_idx r i j : set_ok (r, i) -> set_ok (r, j).
-Proof. intros H q Hq. apply H. exact Hq. Qed.
-
-Lemma todo_size_cons s td : todo_size (s :: td) = S (len (fst s)) + todo_size td.
+Lemma todo_size_cons s td : todo_size (s :: td) = S (len (fst (fst s))) + todo_size td.
 Proof. reflexivity. Qed.
 Lemma W_cons s td : W (s :: td) = set_w s + W td.
 Proof. reflexivity. Qed.
-
-(* unwind only pops *)
-Lemma unwind_spec : forall td k r k', todo_ok td -> unwind td k = (r, k') ->
-  match r with
-  | Some td' => todo_ok td' /\ W td' <= W td /\ todo_size td' <= todo_size td /\ k' + W td' <= k + 1 + W td
-  | None => k' <= k + 1 + W td
-  end.
-Proof.
-  induction td as [|[pending idx] rest IH]; intros k r k' Hok E; simpl in E.
-  - inversion E. subst. simpl. lia.
-  - inversion Hok as [|? ? Hs Hr]. subst.
-    assert (Hpop : unwind rest (S k) = (r, k') ->
-                   match r with
-                   | Some td' => todo_ok td' /\ W td' <= W ((pending, idx) :: rest) /\
-                                 todo_size td' <= todo_size ((pending, idx) :: rest) /\
-                                 k' + W td' <= k + 1 + W ((pending, idx) :: rest)
-                   | None => k' <= k + 1 + W ((pending, idx) :: rest)
-                   end).
-    { intros E'. specialize (IH (S k) r k' Hr E'). rewrite W_cons, todo_size_cons.
-      pose proof (set_w_pos (pending, idx)).
-      destruct r as [td'|]; [destruct IH as (A & B & C & D); repeat split; [exact A|lia|lia|lia] | lia]. }
-    destruct pending as [|[o [t p i|n]] pend']; try (apply Hpop; exact E).
-    destruct t; try (apply Hpop; exact E).
-    destruct (Nat.ltb 0 idx); [|apply Hpop; exact E].
-    inversion E. subst. repeat split; [exact Hok|lia|lia|lia].
-Qed.
-
-Lemma W_alt_step o alts p i pend' idx rest : idx < len alts ->
-  W (((o, CRep (TDisj alts) p i) :: pend', S idx) :: rest) + 1 <= W (((o, CRep (TDisj alts) p i) :: pend', idx) :: rest).
-Proof. intros H. rewrite !W_cons. unfold set_w, front_w. cbn [fst snd]. lia. Qed.
-
-(* what get_next guarantees about its answer *)
-Definition gn_post (td : todo) (k : nat) (r : getres) (k' : nat) : Prop :=
-  match r with
-  | GNext p td1 => inU p /\ todo_ok td1 /\ W td1 < W td /\ td1 <> [] /\ k' + 3 * W td1 <= k + 3 * W td
-  | _ => k' <= k + 3 * W td + 1
-  end.
-
 Lemma W_nonempty s td : 1 <= W (s :: td).
 Proof. rewrite W_cons. pose proof (set_w_pos s). lia. Qed.
 
-Lemma get_next_spec err : forall f td k, todo_ok td -> todo_size td < f ->
-  exists r k', get_next f err td k = Some (r, k') /\ gn_post td k r k'.
+Lemma W_alt_step o alts p i pend' idx m rest : 1 <= idx -> idx < len alts ->
+  W (((o, CRep (TDisj alts) p i) :: pend', S idx, m) :: rest) + 1 <= W (((o, CRep (TDisj alts) p i) :: pend', idx, m) :: rest).
 Proof.
-  induction f as [|f IH]; intros td k Hok Hf; [lia|].
-  destruct td as [|[pending idx] rest].
-  { simpl. eexists _, _. split; [reflexivity|]. destruct err; simpl; lia. }
-  inversion Hok as [|? ? Hs Hr]. subst.
-  (* continuation after an unwind of some smaller todo [td2] reached at count [k2] *)
-  assert (Hunw : forall td2 k2, todo_ok td2 -> todo_size td2 < f ->
-                 W td2 + 1 <= W ((pending, idx) :: rest) -> k2 <= k + 1 ->
-                 exists r k',
-                   match unwind td2 k2 with
-                   | (Some td', k3) => get_next f err td' k3
-                   | (None, k3) => Some (GFail, k3)
-                   end = Some (r, k') /\ gn_post ((pending, idx) :: rest) k r k').
-  { intros td2 k2 Hok2 Hsz2 Hw2 Hk2.
-    destruct (unwind td2 k2) as [[td'|] k3] eqn:EU; pose proof (unwind_spec td2 k2 _ k3 Hok2 EU) as HU; simpl in HU.
-    - destruct HU as (A & B & C & D).
-      destruct (IH td' k3 A ltac:(lia)) as (r & k' & E & P). exists r, k'. split; [exact E|].
-      unfold gn_post in *. destruct r; [destruct P as (P1 & P2 & P3 & P4 & P5); split; [exact P1|]; split; [exact P2|]; split; [lia|]; split; [exact P4|lia] | lia | lia | lia].
-    - eexists _, _. split; [reflexivity|]. unfold gn_post. lia. }
-  destruct pending as [|[o tcx] pend'].
-  - (* the top set is exhausted *)
-    cbn [get_next]. destruct err.
-    + (* unwind td = unwind rest (S ..) *)
-      change (unwind (([], idx) :: rest) (S k)) with (unwind rest (S (S k))).
-      destruct (unwind rest (S (S k))) as [[td'|] k3] eqn:EU;
-        pose proof (unwind_spec rest (S (S k)) _ k3 Hr EU) as HU; simpl in HU.
-      * destruct HU as (A & B & C & D). rewrite todo_size_cons in Hf. simpl in Hf.
-        destruct (IH td' k3 A ltac:(lia)) as (r & k' & E & P). exists r, k'. split; [exact E|].
-        assert (HW : W (([], idx) :: rest) = 1 + W rest) by reflexivity.
-        unfold gn_post in *. destruct r; [destruct P as (P1 & P2 & P3 & P4 & P5); split; [exact P1|]; split; [exact P2|]; split; [lia|]; split; [exact P4|lia] | lia | lia | lia].
-      * eexists _, _. split; [reflexivity|]. unfold gn_post. assert (HW : W (([], idx) :: rest) = 1 + W rest) by reflexivity. lia.
-    + rewrite todo_size_cons in Hf. simpl in Hf.
-      destruct (IH rest (S k) Hr ltac:(lia)) as (r & k' & E & P). exists r, k'. split; [exact E|].
-      assert (HW : W (([], idx) :: rest) = 1 + W rest) by reflexivity.
-      unfold gn_post in *. destruct r; [destruct P as (P1 & P2 & P3 & P4 & P5); split; [exact P1|]; split; [exact P2|]; split; [lia|]; split; [exact P4|lia] | lia | lia | lia].
-  - (* an element is popped *)
-    assert (Hp : inU (o, tcx)) by (apply Hs; simpl; auto).
-    assert (Hpop_ok : forall j, todo_ok ((pend', j) :: rest)).
-    { intros j. constructor; [eapply set_ok_tail; exact Hs | exact Hr]. }
-    assert (Hpop_w : forall j, W ((pend', j) :: rest) + 1 <= W (((o, tcx) :: pend', idx) :: rest)).
-    { intros j. rewrite !W_cons. pose proof (set_w_tail (o, tcx) pend' idx j Hs) as HT. unfold pend in *. lia. }
-    assert (Hpop_sz : forall j, todo_size ((pend', j) :: rest) < f).
-    { intros j. rewrite todo_size_cons in *. simpl in *. lia. }
-    (* plain return of the popped element *)
-    assert (Hret : exists r k', Some (GNext (o, tcx) ((pend', idx) :: rest), S k) = Some (r, k') /\
-                                gn_post (((o, tcx) :: pend', idx) :: rest) k r k').
-    { eexists _, _. split; [reflexivity|]. unfold gn_post. specialize (Hpop_w idx).
-      split; [exact Hp|]. split; [apply Hpop_ok|]. split; [lia|]. split; [discriminate|lia]. }
-    cbn [get_next].
-    destruct tcx as [t p i | n].
-    2:{ destruct err; [apply Hunw; [apply Hpop_ok | apply Hpop_sz | apply Hpop_w | lia] | exact Hret]. }
-    destruct t as [ | p' | e sz | es | ents star | ents | alts];
-      try (destruct err; [apply Hunw; [apply Hpop_ok | apply Hpop_sz | apply Hpop_w | lia] | exact Hret]).
-    (* a disjunct *)
-    destruct (Nat.ltb 0 idx) eqn:Eidx.
-    + destruct err; cbn [negb].
-      * destruct (Nat.ltb idx (len alts)) eqn:Elt.
-        -- apply Nat.ltb_lt in Elt.
-           destruct (nth_error alts idx) as [c|] eqn:En; [|apply nth_error_None in En; unfold len in *; lia].
-           eexists _, _. split; [reflexivity|]. unfold gn_post.
-           assert (inU (o, c)).
-           { destruct Hp as [Ho Hc]. split; [exact Ho|]. simpl.
-             apply (UC_kids tc c0 (CRep (TDisj alts) p i)); [exact Hc|]. simpl. eapply nth_error_In; eauto. }
-           pose proof (W_alt_step o alts p i pend' idx rest Elt) as HA. unfold pend in *.
-           split; [assumption|]. split; [constructor; [intros q Hq; apply Hs; exact Hq | exact Hr]|].
-           split; [lia|]. split; [discriminate|lia].
-        -- apply Hunw; [apply Hpop_ok | apply Hpop_sz | apply Hpop_w | lia].
-      * destruct (IH ((pend', 0) :: rest) (S k) (Hpop_ok 0) (Hpop_sz 0)) as (r & k' & E & P).
-        exists r, k'. split; [exact E|]. specialize (Hpop_w 0).
-        unfold gn_post in *. unfold pend in *. destruct r; [destruct P as (P1 & P2 & P3 & P4 & P5); split; [exact P1|]; split; [exact P2|]; split; [lia|]; split; [exact P4|lia] | lia | lia | lia].
-    + destruct err; [apply Hunw; [apply Hpop_ok | apply Hpop_sz | apply Hpop_w | lia]|].
-      destruct alts as [|c alts'].
-      * eexists _, _. split; [reflexivity|]. unfold gn_post. lia.
-      * eexists _, _. split; [reflexivity|]. unfold gn_post.
-        apply Nat.ltb_ge in Eidx. assert (idx = 0) by lia. subst idx.
-        assert (inU (o, c)).
-        { destruct Hp as [Ho Hc]. split; [exact Ho|]. simpl.
-          apply (UC_kids tc c0 (CRep (TDisj (c :: alts')) p i)); [exact Hc|]. simpl. left. reflexivity. }
-        pose proof (W_alt_step o (c :: alts') p i pend' 0 rest ltac:(simpl; lia)) as HA. unfold pend in *.
-        split; [assumption|]. split; [constructor; [intros q Hq; apply Hs; exact Hq | exact Hr]|].
-        split; [lia|]. split; [discriminate|lia].
+  intros H1 H. rewrite !W_cons. unfold set_w, front_w. cbn [fst snd].
+  destruct idx; [lia|]. cbn [Nat.eqb]. lia.
+Qed.
+
+Lemma wt_own o p i : sumw (own_check o p i) <= 1.
+Proof. unfold own_check. destruct p, i; simpl; lia. Qed.
+
+Lemma W_open_step o alts p i pend' m m' rest :
+  W (((o, CRep (TDisj alts) p i) :: own_check o p i ++ pend', 1, m') :: rest) + 1
+  <= W (((o, CRep (TDisj alts) p i) :: pend', 0, m) :: rest).
+Proof.
+  rewrite !W_cons. unfold set_w, front_w. cbn [fst snd Nat.eqb]. rewrite sumw_app.
+  pose proof (wt_own o p i). lia.
+Qed.
+
+(* ---------- the disjunct in progress in a pending set ---------- *)
+Definition is_disj (p : pend) : bool :=
+  match snd p with CRep (TDisj _) _ _ => true | _ => false end.
+Fixpoint first_disj (l : list pend) : option (obj * list chk) :=
+  match l with
+  | [] => None
+  | p :: r => match snd p with CRep (TDisj set) _ _ => Some (fst p, set) | _ => first_disj r end
+  end.
+Definition cur_alt (pending : list pend) (idx : nat) : option pend :=
+  match first_disj pending with
+  | Some (o, set) => match nth_error set (idx - 1) with Some a => Some (o, a) | None => None end
+  | None => None
+  end.
+Definition front_disj (pending : list pend) : bool :=
+  match pending with p :: _ => is_disj p | [] => false end.
+
+Lemma first_disj_skip p r : is_disj p = false -> first_disj (p :: r) = first_disj r.
+Proof. unfold is_disj. simpl. destruct (snd p) as [[ | | | | | | ] ? ? | ]; intros H; try reflexivity; discriminate. Qed.
+
+Lemma cur_alt_skip p r idx : is_disj p = false -> cur_alt (p :: r) idx = cur_alt r idx.
+Proof. intros H. unfold cur_alt. rewrite first_disj_skip by exact H. reflexivity. Qed.
+
+(* ---------- the invariant on the stack ---------- *)
+Definition ent_ok (ex : list pend) (b : nat) (e : pset) : Prop :=
+  1 <= snd (fst e) ->
+  snd e < b /\
+  (forall q, cur_alt (fst (fst e)) (snd (fst e)) = Some q -> snd e < len ex -> trail_at ex (snd e) = Some q).
+Definition sb (e : pset) (b : nat) : nat :=
+  if Nat.eqb (snd (fst e)) 0 then b else Nat.min b (snd e).
+Fixpoint stk_ok (ex : list pend) (b : nat) (td : todo) : Prop :=
+  match td with
+  | [] => True
+  | e :: rest => ent_ok ex b e /\ stk_ok ex (sb e b) rest
+  end.
+Definition top_ok (ex : list pend) (td : todo) : Prop :=
+  match td with
+  | [] => True
+  | e :: _ => 1 <= snd (fst e) -> front_disj (fst (fst e)) = false -> snd e < len ex
+  end.
+Definition stack_ok (ex : list pend) (td : todo) : Prop :=
+  match td with
+  | [] => True
+  | e :: rest => ent_ok ex (S (len ex)) e /\ stk_ok ex (sb e (len ex)) rest
+  end /\ top_ok ex td.
+
+Definition Inv (td : todo) (ex fl : list pend) : Prop :=
+  todo_ok td /\ NoDup ex /\ (forall e, In e ex -> ~ In e fl) /\ stack_ok ex td.
+
+Lemma sb_le e b : sb e b <= b.
+Proof. unfold sb. destruct (Nat.eqb (snd (fst e)) 0); lia. Qed.
+Lemma sb_mono e b b' : b <= b' -> sb e b <= sb e b'.
+Proof. unfold sb. destruct (Nat.eqb (snd (fst e)) 0); lia. Qed.
+
+Lemma ent_ok_weaken ex b b' e : b <= b' -> ent_ok ex b e -> ent_ok ex b' e.
+Proof. intros L H Hi. destruct (H Hi) as [A B]. split; [lia|exact B]. Qed.
+
+Lemma stk_ok_weaken ex : forall td b b', b <= b' -> stk_ok ex b td -> stk_ok ex b' td.
+Proof.
+  induction td as [|e rest IH]; intros b b' L H; [exact I|]. destruct H as [A B]. split.
+  - eapply ent_ok_weaken; eauto.
+  - eapply IH; [|exact B]. apply sb_mono. exact L.
+Qed.
+
+(* popping the top set *)
+Lemma stack_ok_pop ex e rest : stack_ok ex (e :: rest) -> stack_ok ex rest.
+Proof.
+  intros [[A B] T]. destruct rest as [|e' rest']; [split; exact I|].
+  destruct B as [B1 B2]. pose proof (sb_le e (len ex)) as L. split; [split|].
+  - eapply ent_ok_weaken; [|exact B1]. lia.
+  - eapply stk_ok_weaken; [|exact B2]. apply sb_mono. exact L.
+  - intros Hi _. destruct (B1 Hi) as [B1' _]. lia.
+Qed.
+
+Lemma Inv_pop e rest ex fl : Inv (e :: rest) ex fl -> Inv rest ex fl.
+Proof.
+  intros (A & B & C & D). split; [inversion A; assumption|]. split; [exact B|]. split; [exact C|].
+  eapply stack_ok_pop; eauto.
+Qed.
+
+(* the trail grows by one check *)
+Lemma stk_ok_cons p ex : forall td b, b <= len ex -> stk_ok ex b td -> stk_ok (p :: ex) b td.
+Proof.
+  induction td as [|e rest IH]; intros b L H; [exact I|]. destruct H as [A B]. split.
+  - intros Hi. destruct (A Hi) as [A1 A2]. split; [exact A1|]. intros q Hq _.
+    rewrite trail_at_cons by lia. apply A2; [exact Hq|lia].
+  - apply IH; [pose proof (sb_le e b); lia | exact B].
+Qed.
+
+(* the trail is cut back to [m] *)
+Lemma stk_ok_rollback ex m : forall td b, b <= m -> m <= len ex -> stk_ok ex b td -> stk_ok (rollback ex m) b td.
+Proof.
+  induction td as [|e rest IH]; intros b L Hm H; [exact I|]. destruct H as [A B]. split.
+  - intros Hi. destruct (A Hi) as [A1 A2]. split; [exact A1|]. intros q Hq _.
+    rewrite trail_at_rollback by lia. apply A2; [exact Hq|lia].
+  - apply IH; [pose proof (sb_le e b); lia | exact Hm | exact B].
+Qed.
+
+Lemma todo_ok_cons s td : todo_ok (s :: td) <-> set_ok s /\ todo_ok td.
+Proof. split; [intros H; inversion H; auto | intros [A B]; constructor; auto]. Qed.
+
+(* ---------- transitions of get_next_check preserve the invariant ---------- *)
+(* a non-disjunct front element is popped *)
+Lemma Inv_pop_front p pend' idx mark rest ex fl :
+  Inv ((p :: pend', idx, mark) :: rest) ex fl -> is_disj p = false ->
+  Inv ((pend', idx, mark) :: rest) ex fl.
+Proof.
+  intros (A & B & C & [[D1 D2] T]) Hp. apply todo_ok_cons in A. destruct A as [A1 A2].
+  split; [apply todo_ok_cons; split; [intros q Hq; apply A1; right; exact Hq | exact A2]|].
+  split; [exact B|]. split; [exact C|].
+  assert (Hlt : 1 <= idx -> mark < len ex).
+  { intros Hi. apply T; [exact Hi|]. simpl. exact Hp. }
+  split; [split|].
+  - intros Hi. destruct (D1 Hi) as [E1 E2]. split; [exact E1|].
+    intros q Hq Hl. apply E2; [|exact Hl]. cbn [fst snd] in *. rewrite cur_alt_skip by exact Hp. exact Hq.
+  - exact D2.
+  - intros Hi _. apply Hlt. exact Hi.
+Qed.
+
+(* the front element is popped and the index reset (a finished or never started disjunct) *)
+Lemma Inv_pop_reset p pend' idx mark mark' rest ex fl :
+  Inv ((p :: pend', idx, mark) :: rest) ex fl -> Inv ((pend', 0, mark') :: rest) ex fl.
+Proof.
+  intros (A & B & C & [[D1 D2] T]). apply todo_ok_cons in A. destruct A as [A1 A2].
+  split; [apply todo_ok_cons; split; [intros q Hq; apply A1; right; exact Hq | exact A2]|].
+  split; [exact B|]. split; [exact C|]. split; [split|].
+  - intros Hi. simpl in Hi. lia.
+  - eapply stk_ok_weaken; [|exact D2]. unfold sb. simpl. destruct (Nat.eqb idx 0); lia.
+  - intros Hi. simpl in Hi. lia.
+Qed.
+
+Lemma own_check_in o p i q : In q (own_check o p i) -> q = (o, CRep TAny p i).
+Proof. unfold own_check. destruct p, i; simpl; intros H; try destruct H as [H|[]]; try (symmetry; exact H); destruct H. Qed.
+
+(* a disjunct is taken up *)
+Lemma Inv_open o set p i pend' mark rest ex fl :
+  Inv (((o, CRep (TDisj set) p i) :: pend', 0, mark) :: rest) ex fl ->
+  Inv (((o, CRep (TDisj set) p i) :: own_check o p i ++ pend', 1, len ex) :: rest) ex fl.
+Proof.
+  intros (A & B & C & [[D1 D2] T]). apply todo_ok_cons in A. destruct A as [A1 A2].
+  split.
+  { apply todo_ok_cons. split; [|exact A2]. intros q [Hq|Hq]; [apply A1; left; exact Hq|].
+    apply in_app_or in Hq. destruct Hq as [Hq|Hq]; [|apply A1; right; exact Hq].
+    apply own_check_in in Hq. subst q.
+    assert (HD : inU (o, CRep (TDisj set) p i)) by (apply A1; left; reflexivity).
+    destruct HD as [HD1 HD2]. split; [exact HD1|]. simpl in *.
+    apply (UC_own tc c0) in HD2. exact HD2. }
+  split; [exact B|]. split; [exact C|]. split; [split|].
+  - intros _. simpl. split; [lia|]. intros q _ Hl. lia.
+  - unfold sb in *. simpl in *. rewrite Nat.min_id. exact D2.
+  - intros _ Hf. simpl in Hf. discriminate.
+Qed.
+
+(* an alternative of the disjunct in progress has failed *)
+Lemma Inv_fail o set p i pend' idx mark rest ex fl a :
+  Inv (((o, CRep (TDisj set) p i) :: pend', idx, mark) :: rest) ex fl ->
+  1 <= idx -> nth_error set (idx - 1) = Some a ->
+  (len ex = mark -> In (o, a) fl) ->
+  let ex' := rollback ex mark in
+  let fl' := (o, a) :: fl in
+  len ex' = mark /\ NoDup ex' /\ (forall e, In e ex' -> ~ In e fl') /\ stk_ok ex' mark rest /\
+  inU (o, a) /\ (mark < len ex -> ~ In (o, a) fl).
+Proof.
+  intros (A & B & C & [[D1 D2] T]) Hi Ha He ex' fl'. apply todo_ok_cons in A. destruct A as [A1 A2].
+  destruct (D1 Hi) as [E1 E2]. cbn [fst snd] in E1, E2.
+  assert (Hq : cur_alt ((o, CRep (TDisj set) p i) :: pend') idx = Some (o, a)).
+  { unfold cur_alt. simpl. rewrite Ha. reflexivity. }
+  assert (Hm : mark <= len ex) by lia.
+  split; [apply rollback_len; exact Hm|].
+  split; [apply NoDup_skipn; exact B|].
+  assert (HU : inU (o, a)).
+  { assert (HD : inU (o, CRep (TDisj set) p i)) by (apply A1; left; reflexivity).
+    destruct HD as [HD1 HD2]. split; [exact HD1|]. simpl in *.
+    apply (UC_kids tc c0 _ a HD2). simpl. eapply nth_error_In; eauto. }
+  assert (HN : mark < len ex -> ~ In (o, a) fl).
+  { intros Hl. apply C. eapply trail_at_in. apply E2; [exact Hq|exact Hl]. }
+  split; [|split; [|split; [exact HU|exact HN]]].
+  - intros e Hin [Heq|Hfl].
+    + subst e. destruct (Nat.eq_dec (len ex) mark) as [Hl|Hl].
+      * apply (C (o, a)); [eapply rollback_in; eauto | apply He; exact Hl].
+      * apply (trail_at_not_older ex mark (o, a) B Hm); [apply E2; [exact Hq|lia] | exact Hin].
+    + apply (C e); [eapply rollback_in; eauto | exact Hfl].
+  - apply stk_ok_rollback; [lia | exact Hm |].
+    eapply stk_ok_weaken; [|exact D2]. unfold sb. simpl.
+    destruct idx; [lia|]. simpl. lia.
 Qed.
 
 
-(* ---------- pushing work ---------- *)
-Lemma K_pos : 2 <= K.
-Proof. unfold K, bound_K. lia. Qed.
-Lemma WP_2K : 2 * K <= WP.
-Proof. unfold WP, bound_push. fold K. nia. Qed.
-Lemma WP_push : 1 + K * (FO + FC) <= WP.
-Proof. unfold WP, bound_push. fold K. nia. Qed.
+(* ---------- unwind only pops ---------- *)
+Definition lt_top (ex : list pend) (td : todo) : Prop :=
+  match td with [] => True | e :: _ => 1 <= snd (fst e) -> snd e < len ex end.
 
-Lemma set_w_le set i : set_ok (set, i) -> set_w (set, i) <= 1 + K * len set.
+Lemma unwind_spec : forall td k r k', unwind td k = (r, k') ->
+  match r with
+  | Some td' => (exists pre, td = pre ++ td') /\ W td' <= W td /\ todo_size td' <= todo_size td /\
+                k' + W td' <= k + 1 + W td
+  | None => k' <= k + 1 + W td
+  end.
 Proof.
-  intros H. unfold set_w. simpl. destruct set as [|p r]; [lia|].
-  assert (inU p) by (apply H; simpl; auto). pose proof (front_w_le p i H0). simpl. lia.
+  induction td as [|[[pending idx] mark] rest IH]; intros k r k' E; simpl in E.
+  - inversion E. subst. simpl. lia.
+  - assert (Hpop : unwind rest (S k) = (r, k') ->
+                   match r with
+                   | Some td' => (exists pre, (pending, idx, mark) :: rest = pre ++ td') /\
+                                 W td' <= W ((pending, idx, mark) :: rest) /\
+                                 todo_size td' <= todo_size ((pending, idx, mark) :: rest) /\
+                                 k' + W td' <= k + 1 + W ((pending, idx, mark) :: rest)
+                   | None => k' <= k + 1 + W ((pending, idx, mark) :: rest)
+                   end).
+    { intros E'. specialize (IH (S k) r k' E'). rewrite W_cons, todo_size_cons.
+      pose proof (set_w_pos (pending, idx, mark)).
+      destruct r as [td'|]; [|lia]. destruct IH as ((pre & Hpre) & B & C & D).
+      split; [exists ((pending, idx, mark) :: pre); rewrite Hpre; reflexivity|]. lia. }
+    destruct pending as [|[o [t p i|n]] pend']; try (apply Hpop; exact E).
+    destruct t; try (apply Hpop; exact E).
+    destruct (Nat.ltb 0 idx); [|apply Hpop; exact E].
+    inversion E. subst. split; [exists []; reflexivity|]. lia.
 Qed.
 
-Lemma return_check_spec td1 q td' : todo_ok td1 -> inU q -> return_check td1 q = Some td' ->
-  todo_ok td' /\ W td' <= W td1 + WP.
+Lemma Inv_suffix pre : forall td' ex fl, Inv (pre ++ td') ex fl -> Inv td' ex fl.
 Proof.
-  intros Hok Hq E. destruct td1 as [|[pending i] rest]; simpl in E; [discriminate|]. inversion E. subst td'.
-  inversion Hok as [|? ? Hs Hr]. subst. split.
-  - constructor; [|exact Hr]. intros p [Hp|Hp]; [subst; exact Hq | apply Hs; exact Hp].
-  - rewrite !W_cons. pose proof WP_2K. pose proof (front_w_le q i Hq). pose proof (front_w_pos q i).
-    unfold set_w. simpl. destruct pending as [|p' r]; [simpl; lia|].
-    pose proof (front_w_pos p' i). simpl. lia.
+  induction pre as [|e pre IH]; intros td' ex fl H; [exact H|]. apply IH. eapply Inv_pop. exact H.
 Qed.
 
-Lemma filter_len_le {X} (f : X -> bool) l : len (filter f l) <= len l.
-Proof. unfold len. induction l as [|x r IH]; simpl; [lia|]. destruct (f x); simpl; lia. Qed.
-
-Lemma push_checks_spec ex td1 cs : todo_ok td1 -> (forall p, In p cs -> inU p) -> len cs <= FO + FC ->
-  todo_ok (push_checks ex td1 cs) /\ W (push_checks ex td1 cs) <= W td1 + WP.
+(* below the top set every disjunct in progress was taken up strictly before the end of the trail *)
+Lemma stk_lt_top ex : forall td b, stk_ok ex b td -> b <= len ex ->
+  forall pre td', td = pre ++ td' -> lt_top ex td'.
 Proof.
-  intros Hok Hcs Hl. unfold push_checks.
-  destruct (filter (fun p => negb (have_examined ex p)) cs) as [|p r] eqn:E; [split; [exact Hok|lia]|].
-  assert (Hs : set_ok (p :: r, 0)).
-  { intros q Hq. apply Hcs. change (In q (p :: r)) in Hq. rewrite <- E in Hq. apply filter_In in Hq. apply Hq. }
-  split; [constructor; assumption|].
-  rewrite W_cons. pose proof (set_w_le _ _ Hs).
-  pose proof (filter_len_le (fun p => negb (have_examined ex p)) cs) as FL. rewrite E in FL.
-  pose proof WP_push. assert (K * len (p :: r) <= K * (FO + FC)) by (apply Nat.mul_le_mono_l; lia). lia.
+  induction td as [|e rest IH]; intros b H L pre td' E.
+  - destruct pre; [|discriminate]. simpl in E. subst. exact I.
+  - destruct H as [A B]. destruct pre as [|e' pre].
+    + simpl in E. subst td'. intros Hi. destruct (A Hi). lia.
+    + simpl in E. injection E as E1 E2. eapply IH; [exact B | pose proof (sb_le e b); lia | exact E2].
 Qed.
-
-(* ---------- the children pushed by each arm are in the universe ---------- *)
-Lemma dict_get_in {V} (d : list (bytes * V)) k v : dict_get d k = Some v -> In v (List.map snd d).
-Proof.
-  induction d as [|[k' v'] r IH]; simpl; [discriminate|].
-  destruct (bytes_eqb k k'); intros E; [inversion E; left; reflexivity | right; apply IH; exact E].
-Qed.
-
-Lemma dict_ents_spec d ents e cs : dict_ents tc d ents = Some (e, cs) ->
-  (forall p, In p cs -> In (fst p) (List.map snd d) /\ In (snd p) (List.map ent_chk ents)) /\ len cs <= len ents.
-Proof.
-  revert e cs. induction ents as [|[k c opt] r IH]; intros e cs E; simpl in E.
-  - inversion E. split; [intros p []|simpl; lia].
-  - destruct (resolve tc c) as [rc|]; [|discriminate].
-    assert (Hrec : dict_ents tc d r = Some (e, cs) ->
-                   (forall p, In p cs -> In (fst p) (List.map snd d) /\ In (snd p) (List.map ent_chk (DEnt k c opt :: r))) /\
-                   len cs <= len (DEnt k c opt :: r)).
-    { intros E'. destruct (IH _ _ E') as [A B]. split; [|simpl in *; unfold len in *; simpl; lia].
-      intros p Hp. destruct (A p Hp). split; [assumption|right; assumption]. }
-    destruct (dict_get d k) as [v|] eqn:G.
-    + destruct opt.
-      * destruct (r_ty rc); try (apply Hrec; exact E);
-          (destruct (dict_ents tc d r) as [[e' cs']|] eqn:E'; [|discriminate]; inversion E; subst;
-           destruct (IH _ _ eq_refl) as [A B]; split; [|unfold len in *; simpl; lia];
-           intros q [Hq|Hq]; [subst q; simpl; split; [eapply dict_get_in; eauto | left; reflexivity]
-                             | destruct (A q Hq); split; [assumption | right; assumption]]).
-      * destruct (r_ty rc); try (apply Hrec; exact E);
-          (destruct (dict_ents tc d r) as [[e' cs']|] eqn:E'; [|discriminate]; inversion E; subst;
-           destruct (IH _ _ eq_refl) as [A B]; split; [|unfold len in *; simpl; lia];
-           intros q [Hq|Hq]; [subst q; simpl; split; [eapply dict_get_in; eauto | left; reflexivity]
-                             | destruct (A q Hq); split; [assumption | right; assumption]]).
-      * inversion E. split; [intros p []|simpl; lia].
-    + destruct opt; try (apply Hrec; exact E). inversion E. split; [intros p []|simpl; lia].
-Qed.
-
-Lemma stream_ents_spec d ents e cs : stream_ents tc d ents = Some (e, cs) ->
-  (forall p, In p cs -> In (fst p) (List.map snd d) /\ In (snd p) (List.map ent_chk ents)) /\ len cs <= len ents.
-Proof.
-  revert e cs. induction ents as [|[k c opt] r IH]; intros e cs E; simpl in E.
-  - inversion E. split; [intros p []|simpl; lia].
-  - destruct (resolve tc c) as [rc|]; [|discriminate].
-    destruct (stream_ents tc d r) as [[e' cs']|] eqn:E'; [|discriminate].
-    destruct (IH _ _ eq_refl) as [A B].
-    assert (Hsame : (forall p, In p cs' -> In (fst p) (List.map snd d) /\ In (snd p) (List.map ent_chk (DEnt k c opt :: r))) /\
-                    len cs' <= len (DEnt k c opt :: r)).
-    { split; [|unfold len in *; simpl; lia]. intros p Hp. destruct (A p Hp). split; [assumption|right; assumption]. }
-    destruct (dict_get d k) as [v|] eqn:G.
-    + destruct opt; try (inversion E; subst; exact Hsame);
-        (destruct (r_ty rc); try (inversion E; subst; exact Hsame);
-         (inversion E; subst; split; [|unfold len in *; simpl; lia];
-          intros q [Hq|Hq]; [subst q; simpl; split; [eapply dict_get_in; eauto | left; reflexivity]
-                            | destruct (A q Hq); split; [assumption | right; assumption]])).
-    + destruct opt; inversion E; subst; exact Hsame.
-Qed.
-
-Lemma star_ents_spec d spec sc sopt sty e cs : star_ents d spec sc sopt sty = (e, cs) ->
-  (forall p, In p cs -> In (fst p) (List.map snd d) /\ snd p = sc) /\ len cs <= len d.
-Proof.
-  revert e cs. induction d as [|[k v] r IH]; intros e cs E; simpl in E.
-  - inversion E. split; [intros p []|simpl; lia].
-  - assert (Hrec : star_ents r spec sc sopt sty = (e, cs) ->
-                   (forall p, In p cs -> In (fst p) (List.map snd ((k, v) :: r)) /\ snd p = sc) /\ len cs <= len ((k, v) :: r)).
-    { intros E'. destruct (IH _ _ E') as [A B]. split; [|unfold len in *; simpl; lia].
-      intros p Hp. destruct (A p Hp). split; [right; assumption|assumption]. }
-    destruct (existsb (bytes_eqb k) spec); [apply Hrec; exact E|].
-    destruct sopt.
-    + destruct sty; try (apply Hrec; exact E);
-        (destruct (star_ents r spec sc KReq _) as [e' cs'] eqn:E'; inversion E; subst;
-         destruct (IH _ _ eq_refl) as [A B]; split; [|unfold len in *; simpl; lia];
-         intros q [Hq|Hq]; [subst q; simpl; split; [left; reflexivity | reflexivity]
-                           | destruct (A q Hq); split; [right; assumption | assumption]]).
-    + destruct sty; try (apply Hrec; exact E);
-        (destruct (star_ents r spec sc KOpt _) as [e' cs'] eqn:E'; inversion E; subst;
-         destruct (IH _ _ eq_refl) as [A B]; split; [|unfold len in *; simpl; lia];
-         intros q [Hq|Hq]; [subst q; simpl; split; [left; reflexivity | reflexivity]
-                           | destruct (A q Hq); split; [right; assumption | assumption]]).
-    + inversion E. split; [intros p []|simpl; lia].
-Qed.
-
 
 (* ---------- the measure ---------- *)
 Definition UP : list pend := list_prod UO UC.
-Definition uncov (ex : list pend) : nat := len (filter (fun u => negb (have_examined ex u)) UP).
-Definition Phi (td : todo) (ex : list pend) : nat := uncov ex * (WP + 1) + W td.
+Definition uncov (l : list pend) : nat := len (filter (fun u => negb (have_examined l u)) UP).
+Definition PP : nat := len UP.
+Definition M1 : nat := WP + 1.
+Definition M2 : nat := PP * M1 + 1.
+Definition Phi (td : todo) (ex fl : list pend) : nat := uncov fl * M2 + uncov ex * M1 + W td.
 
 Lemma inU_UP p : inU p -> In p UP.
 Proof. destruct p as [o c]. intros [A B]. apply in_prod; assumption. Qed.
 
-Lemma filter_lt {X} (f g : X -> bool) l x :
-  (forall y, g y = true -> f y = true) -> In x l -> f x = true -> g x = false ->
-  len (filter g l) + 1 <= len (filter f l).
+Lemma uncov_le l : uncov l <= PP.
+Proof. apply filter_len_le. Qed.
+
+Lemma have_examined_cons p l u : have_examined (p :: l) u = (pend_eqb u p || have_examined l u)%bool.
+Proof. reflexivity. Qed.
+
+Lemma uncov_cons_le p l : uncov (p :: l) <= uncov l.
 Proof.
-  intros Hi Hx Hf Hg. unfold len. induction l as [|y r IH]; [destruct Hx|].
-  simpl. destruct Hx as [Hx|Hx].
-  - subst y. rewrite Hf, Hg. simpl.
-    clear IH. induction r as [|z r IH]; simpl; [lia|].
-    destruct (g z) eqn:Gz; [rewrite (Hi z Gz); simpl; lia | destruct (f z); simpl; lia].
-  - specialize (IH Hx). destruct (g y) eqn:Gy; [rewrite (Hi y Gy); simpl; lia | destruct (f y); simpl; lia].
+  apply filter_le. intros y. rewrite have_examined_cons. destruct (pend_eqb y p); simpl; [discriminate|auto].
 Qed.
 
-Lemma uncov_cons p ex : inU p -> have_examined ex p = false -> uncov (p :: ex) + 1 <= uncov ex.
+Lemma uncov_cons_lt p l : inU p -> ~ In p l -> uncov (p :: l) + 1 <= uncov l.
 Proof.
   intros Hp Hn. unfold uncov. apply (filter_lt _ _ UP p).
-  - intros y Hy. unfold have_examined in *. simpl in Hy. destruct (pend_eqb y p); [discriminate|exact Hy].
+  - intros y. rewrite have_examined_cons. destruct (pend_eqb y p); simpl; [discriminate|auto].
   - apply inU_UP. exact Hp.
-  - rewrite Hn. reflexivity.
-  - unfold have_examined. simpl. rewrite pend_eqb_refl. reflexivity.
+  - apply have_examined_not_in in Hn. rewrite Hn. reflexivity.
+  - rewrite have_examined_cons, pend_eqb_refl. reflexivity.
 Qed.
 
-(* ---------- one iteration of the work loop ---------- *)
-(* what every arm of the match delivers, starting from the todo [td1] returned by get_next *)
-Definition arm_ok (td1 : todo) (ex1 : list pend) (k1 : nat) (res : stepres * nat) : Prop :=
-  snd res = k1 /\
-  match fst res with
-  | SCont td' ex' _ => ex' = ex1 /\ todo_ok td' /\ W td' <= W td1 + WP
-  | SStop o => o <> Stuck
+(* a new failed alternative pays for any rollback of the trail *)
+Lemma Phi_fail_new td td' ex ex' fl q : inU q -> ~ In q fl -> W td' <= W td ->
+  Phi td' ex' (q :: fl) + 1 + (W td - W td') <= Phi td ex fl.
+Proof.
+  intros Hq Hn Hw. unfold Phi.
+  pose proof (uncov_cons_lt q fl Hq Hn) as HF. pose proof (mul_step _ _ M2 HF) as HM.
+  pose proof (uncov_le ex') as HE. assert (uncov ex' * M1 <= PP * M1) by (apply Nat.mul_le_mono_r; exact HE).
+  unfold M2 in *. lia.
+Qed.
+
+(* a failed alternative that was already known leaves the trail alone *)
+Lemma Phi_fail_old td td' ex fl q : W td' <= W td ->
+  Phi td' ex (q :: fl) + (W td - W td') <= Phi td ex fl.
+Proof.
+  intros Hw. unfold Phi. pose proof (uncov_cons_le q fl) as HF.
+  assert (uncov (q :: fl) * M2 <= uncov fl * M2) by (apply Nat.mul_le_mono_r; exact HF). lia.
+Qed.
+
+
+(* ---------- get_next_check ---------- *)
+(* an error is pending and nothing was examined under the current alternative: it is a known failure *)
+Definition err_ok (td : todo) (ex fl : list pend) : Prop :=
+  match td with
+  | [] => True
+  | e :: _ => 1 <= snd (fst e) -> forall q, cur_alt (fst (fst e)) (snd (fst e)) = Some q -> len ex = snd e -> In q fl
+  end.
+(* the check handed out is the current alternative when nothing was examined under it yet *)
+Definition hand_ok (p : pend) (td : todo) (ex : list pend) : Prop :=
+  match td with
+  | [] => True
+  | e :: _ => 1 <= snd (fst e) -> forall q, cur_alt (fst (fst e)) (snd (fst e)) = Some q -> len ex = snd e -> p = q
   end.
 
-Lemma arm_cont td1 ex1 k1 e : todo_ok td1 -> arm_ok td1 ex1 k1 (SCont td1 ex1 e, k1).
-Proof. intros H. split; [reflexivity|]. simpl. split; [reflexivity|]. split; [exact H|lia]. Qed.
-Lemma arm_stop td1 ex1 k1 o : o <> Stuck -> arm_ok td1 ex1 k1 (SStop o, k1).
-Proof. intros H. split; [reflexivity|exact H]. Qed.
-Lemma arm_push td1 ex1 k1 cs e : todo_ok td1 -> (forall p, In p cs -> inU p) -> len cs <= FO + FC ->
-  arm_ok td1 ex1 k1 (SCont (push_checks ex1 td1 cs) ex1 e, k1).
-Proof.
-  intros H A B. destruct (push_checks_spec ex1 td1 cs H A B). split; [reflexivity|]. simpl. auto.
-Qed.
+Lemma lt_top_err_ok td ex fl : lt_top ex td -> err_ok td ex fl.
+Proof. destruct td as [|e r]; [intros; exact I|]. intros H Hi q _ Hl. specialize (H Hi). lia. Qed.
+Lemma lt_top_hand_ok p td ex : lt_top ex td -> hand_ok p td ex.
+Proof. destruct td as [|e r]; [intros; exact I|]. intros H Hi q _ Hl. specialize (H Hi). lia. Qed.
 
-Lemma in_combine_both {X Y} (l : list X) (m : list Y) x y : In (x, y) (combine l m) -> In x l /\ In y m.
-Proof. intros H. split; [eapply in_combine_l; eauto | eapply in_combine_r; eauto]. Qed.
-
-Lemma step_arms td1 ex k1 o tcx c :
-  todo_ok td1 -> td1 <> [] -> inU (o, tcx) -> resolve tc tcx = Some c ->
-  arm_ok td1 ((o, tcx) :: ex) k1 (step_arm opq oc tc td1 ((o, tcx) :: ex) k1 o tcx c).
-Proof.
-  intros Hok Hne [Ho Hc] Hres. unfold step_arm. set (ex1 := (o, tcx) :: ex).
-  set (cont := fun td' e => (SCont td' ex1 e, k1)). set (stop := fun x => (SStop x, k1)). simpl in Ho, Hc.
-  destruct (resolve_in tc c0 tcx c Hc Hres) as (Hrc & Hal & Hkids).
-  destruct c as [[t p] i]. cbn [r_ty r_pred r_ind fst snd] in *.
-  assert (Hcont : forall e, arm_ok td1 ex1 k1 (cont td1 e)) by (intros e; apply arm_cont; exact Hok).
-  assert (Hstop : forall x, x <> Stuck -> arm_ok td1 ex1 k1 (stop x)) by (intros x Hx; apply arm_stop; exact Hx).
-  assert (Hret : forall q, inU q ->
-            arm_ok td1 ex1 k1 (match return_check td1 q with Some td' => cont td' None | None => stop Panicked end)).
-  { intros q Hq. destruct (return_check td1 q) as [td'|] eqn:E; [|apply Hstop; discriminate].
-    destruct (return_check_spec td1 q td' Hok Hq E). split; [reflexivity|]. simpl. auto. }
-  assert (Hpush : forall cs e, (forall q, In q cs -> inU q) -> len cs <= FO + FC ->
-            arm_ok td1 ex1 k1 (cont (push_checks ex1 td1 cs) e)).
-  { intros cs e A B. apply arm_push; assumption. }
-  destruct o as [ | b | z | n d | s | s | s | n g | l | d | d content].
-  (* the reference *)
-  8:{ destruct t; destruct i; try apply Hcont;
-      (destruct (octx_get oc (n, g)) as [o'|] eqn:G; apply Hret;
-       [ split; [eapply UO_lookup; eauto | exact Hal] | split; [apply UO_null | exact Hc] ]). }
-  (* direct objects *)
-  all: destruct i; try apply Hcont.
-  all: destruct t as [ | p' | e sz | es | ents star | ents | alts]; try apply Hcont;
-       try (apply Hstop; discriminate);
-       try (match goal with |- context [prim_match ?o ?p] => destruct (prim_match o p) end; apply Hcont).
-  (* arrays: Array *)
-  1,3: (destruct (match sz with Some n => negb (Nat.eqb (len l) n) | None => false end); [apply Hcont|];
-        destruct (resolve tc e) as [re|]; [|apply Hstop; discriminate];
-        assert (Hpe : arm_ok td1 ex1 k1 (cont (push_checks ex1 td1 (List.map (fun x => (x, e)) l)) None));
-        [ apply Hpush;
-          [ intros q Hq; apply in_map_iff in Hq; destruct Hq as (x & Eq & Hx); subst q; split;
-            [ apply (UO_kids oc o0 (OArr l)); [exact Ho | exact Hx] | apply Hkids; left; reflexivity ]
-          | pose proof (fan_o_le (OArr l) Ho) as L; simpl in L; unfold len, pend in *; rewrite map_length; lia ]
-        | destruct (r_ty re); try exact Hpe; apply Hcont ]).
-  (* arrays: HetArray *)
-  1,2: (destruct (negb (Nat.eqb (len l) (len es))); [apply Hcont|];
-        apply Hpush;
-        [ intros [x y] Hq; apply in_combine_both in Hq; destruct Hq as [Hx Hy]; split;
-          [ apply (UO_kids oc o0 (OArr l)); [exact Ho | exact Hx] | apply Hkids; exact Hy ]
-        | pose proof (fan_c_le _ Hrc) as L; simpl in L; unfold len, pend in *;  rewrite combine_length; lia ]).
-  (* dictionaries *)
-  1,2: (destruct (dict_ents tc d ents) as [[[e|] cs]|] eqn:DE; [apply Hcont | | apply Hstop; discriminate];
-        destruct (dict_ents_spec d ents None cs DE) as [A B];
-        pose proof (fan_c_le _ Hrc) as LC; pose proof (fan_o_le (ODict d) Ho) as LO;
-        simpl in LC, LO; unfold len, pend in *; rewrite app_length, map_length in LC; rewrite map_length in LO;
-        assert (Hcs : forall q, In q cs -> inU q);
-        [ intros q Hq; destruct (A q Hq) as [A1 A2]; split;
-          [ apply (UO_kids oc o0 (ODict d)); [exact Ho | exact A1]
-          | apply Hkids; simpl; apply in_or_app; left; exact A2 ] |];
-        destruct star as [[sc sopt]|]; [|apply Hpush; [exact Hcs | lia]];
-        destruct (resolve tc sc) as [rs|]; [|apply Hstop; discriminate];
-        destruct (star_ents d (List.map ent_key ents) sc sopt (r_ty rs)) as [[e|] cs2] eqn:SE; [apply Hcont|];
-        destruct (star_ents_spec _ _ _ _ _ _ _ SE) as [A' B'];
-        apply Hpush;
-        [ intros q Hq; apply in_app_or in Hq; destruct Hq as [Hq|Hq]; [apply Hcs; exact Hq|];
-          destruct (A' q Hq) as [A1 A2]; split;
-          [ apply (UO_kids oc o0 (ODict d)); [exact Ho | exact A1]
-          | rewrite A2; apply Hkids; simpl; apply in_or_app; right; left; reflexivity ]
-        | unfold len, pend in *; rewrite app_length; simpl in LC; lia ]).
-  (* streams *)
-  1,2: (destruct (stream_ents tc d ents) as [[[e|] cs]|] eqn:DE; [apply Hcont | | apply Hstop; discriminate];
-        destruct (stream_ents_spec d ents None cs DE) as [A B];
-        pose proof (fan_c_le _ Hrc) as LC; simpl in LC; unfold len, pend in *; rewrite map_length in LC;
-        apply Hpush;
-        [ intros q Hq; destruct (A q Hq) as [A1 A2]; split;
-          [ apply (UO_kids oc o0 (OStream d content)); [exact Ho | exact A1]
-          | apply Hkids; simpl; exact A2 ]
-        | lia ]).
-Qed.
-
-
-Lemma step_spec td ex err k res k' : todo_ok td -> step opq oc tc td ex err k = (res, k') ->
-  match res with
-  | SCont td' ex' _ => todo_ok td' /\ Phi td' ex' + 1 <= Phi td ex /\ k' + 5 * Phi td' ex' <= k + 5 * Phi td ex
-  | SStop o => o <> Stuck /\ k' <= k + 3 * W td + 2
+Definition gn_post (td : todo) (ex fl : list pend) (k : nat) (r : getres) (k' : nat) : Prop :=
+  match r with
+  | GNext p td1 ex1 fl1 =>
+    inU p /\ Inv td1 ex1 fl1 /\ hand_ok p td1 ex1 /\ td1 <> [] /\
+    Phi td1 ex1 fl1 + 1 <= Phi td ex fl /\ k' + 3 * Phi td1 ex1 fl1 <= k + 3 * Phi td ex fl
+  | _ => k' <= k + 3 * Phi td ex fl + 1
   end.
+
+Lemma Phi_W td td' ex fl : Phi td' ex fl + W td = Phi td ex fl + W td'.
+Proof. unfold Phi. lia. Qed.
+
+Lemma W_le_Phi td ex fl : W td <= Phi td ex fl.
+Proof. unfold Phi. lia. Qed.
+
+Lemma get_next_spec err : forall f td ex fl k, Inv td ex fl -> (err = true -> err_ok td ex fl) ->
+  todo_size td < f ->
+  exists r k', get_next f err td ex fl k = Some (r, k') /\ gn_post td ex fl k r k'.
 Proof.
-  intros Hok. unfold step.
-  destruct (get_next_spec (is_some err) (S (todo_size td)) td (S k) Hok (Nat.lt_succ_diag_r _)) as (r & k1 & E & P).
-  rewrite E. unfold gn_post in P. destruct r as [[o tcx] td1 | | | ].
-  - destruct P as (Hp & Hok1 & Hw & Hne & Hk).
-    destruct (resolve tc tcx) as [c|] eqn:R.
-    + destruct (have_examined ex (o, tcx)) eqn:HE.
-      * intros Eq. inversion Eq. subst. split; [exact Hok1|]. unfold Phi. lia.
-      * pose proof (step_arms td1 ex k1 o tcx c Hok1 Hne Hp R) as HA.
-        intros Eq. rewrite Eq in HA. destruct HA as [Hk' Hm]. simpl in Hk', Hm. subst k'.
-        destruct res as [td' ex' err'|x]; [|split; [exact Hm|lia]].
-        destruct Hm as (Hex & Hok' & Hw'). subst ex'.
-        pose proof (uncov_cons (o, tcx) ex Hp HE) as HU.
-        pose proof (mul_step _ _ (WP + 1) HU) as HM. unfold pend in *.
-        split; [exact Hok'|]. unfold Phi. lia.
-    + intros Eq. inversion Eq. subst. split; [discriminate|lia].
-  - intros Eq. destruct err; inversion Eq; subst; (split; [discriminate|lia]).
-  - intros Eq. destruct err; inversion Eq; subst; (split; [discriminate|lia]).
-  - intros Eq. inversion Eq. subst. split; [discriminate|lia].
+  induction f as [|f IH]; intros td ex fl k HI HE Hf; [lia|].
+  destruct td as [|[[pending idx] mark] rest].
+  { simpl. eexists _, _. split; [reflexivity|]. destruct err; simpl; lia. }
+  set (td := (pending, idx, mark) :: rest) in *.
+  (* continuing with a state that is not worse *)
+  assert (Hcont : forall td2 ex2 fl2 k2, Inv td2 ex2 fl2 -> (err = true -> err_ok td2 ex2 fl2) ->
+            todo_size td2 < f -> Phi td2 ex2 fl2 <= Phi td ex fl ->
+            k2 + 3 * Phi td2 ex2 fl2 <= k + 3 * Phi td ex fl ->
+            exists r k', get_next f err td2 ex2 fl2 k2 = Some (r, k') /\ gn_post td ex fl k r k').
+  { intros td2 ex2 fl2 k2 I2 E2 S2 P2 K2.
+    destruct (IH td2 ex2 fl2 k2 I2 E2 S2) as (r & k' & E & P). exists r, k'. split; [exact E|].
+    unfold gn_post in *. destruct r; [|lia|lia|lia].
+    destruct P as (P1 & P2' & P3 & P4 & P5 & P6). split; [exact P1|]. split; [exact P2'|].
+    split; [exact P3|]. split; [exact P4|]. split; lia. }
+  (* unwinding a state all of whose disjuncts in progress were taken up before the end of the trail *)
+  assert (Hunw : forall td2 ex2 fl2 k2, Inv td2 ex2 fl2 ->
+            (forall pre td', td2 = pre ++ td' -> lt_top ex2 td') ->
+            todo_size td2 < f -> Phi td2 ex2 fl2 <= Phi td ex fl ->
+            k2 + 1 + 3 * Phi td2 ex2 fl2 <= k + 3 * Phi td ex fl ->
+            exists r k',
+              match unwind td2 k2 with
+              | (Some td', k3) => get_next f err td' ex2 fl2 k3
+              | (None, k3) => Some (GFail, k3)
+              end = Some (r, k') /\ gn_post td ex fl k r k').
+  { intros td2 ex2 fl2 k2 I2 L2 S2 P2 K2.
+    destruct (unwind td2 k2) as [[td'|] k3] eqn:EU; pose proof (unwind_spec td2 k2 _ k3 EU) as HU; cbv beta iota in HU.
+    - destruct HU as ((pre & Hpre) & B & C & D).
+      pose proof (Phi_W td2 td' ex2 fl2) as PW.
+      apply Hcont.
+      + eapply Inv_suffix. rewrite <- Hpre. exact I2.
+      + intros _. apply lt_top_err_ok. eapply L2. exact Hpre.
+      + lia.
+      + lia.
+      + lia.
+    - pose proof (W_le_Phi td2 ex2 fl2). eexists _, _. split; [reflexivity|]. unfold gn_post. lia. }
+  pose proof HI as HI'. destruct HI' as (HT & HN & HD & HS).
+  destruct HS as [[HS1 HS2] HS3].
+  assert (Hrest_lt : forall pre td', rest = pre ++ td' -> lt_top ex td').
+  { intros pre td' E. eapply stk_lt_top; [exact HS2 | apply sb_le | exact E]. }
+  destruct pending as [|[o tcx] pend'].
+  - (* the top set is exhausted *)
+    assert (HW : W td = 1 + W rest) by reflexivity.
+    assert (HP : Phi rest ex fl + 1 = Phi td ex fl) by (unfold Phi; lia).
+    cbn [get_next]. destruct err.
+    + change (unwind (([], idx, mark) :: rest) (S k)) with (unwind rest (S (S k))).
+      apply Hunw; [eapply Inv_pop; exact HI | exact Hrest_lt | | lia | lia].
+      unfold td in Hf. rewrite todo_size_cons in Hf. simpl in Hf. lia.
+    + apply Hcont; [eapply Inv_pop; exact HI | discriminate | | lia | lia].
+      unfold td in Hf. rewrite todo_size_cons in Hf. simpl in Hf. lia.
+  - (* an element is popped *)
+    assert (Hp : inU (o, tcx)).
+    { apply todo_ok_cons in HT. destruct HT as [HT1 _]. apply HT1. left. reflexivity. }
+    assert (Hpop_w : forall j m, W ((pend', j, m) :: rest) + 1 <= W td).
+    { intros j m. unfold td. rewrite !W_cons. pose proof (set_w_tail (o, tcx) pend' idx mark j m). unfold pend in *. lia. }
+    assert (Hpop_phi : forall j m, Phi ((pend', j, m) :: rest) ex fl + 1 <= Phi td ex fl).
+    { intros j m. specialize (Hpop_w j m). unfold Phi. lia. }
+    assert (Hpop_sz : forall j m, todo_size ((pend', j, m) :: rest) < f).
+    { intros j m. unfold td in Hf. rewrite todo_size_cons in *. simpl in *. unfold len in *. simpl in Hf. lia. }
+    assert (Hsuf : forall j m, (1 <= j -> m < len ex) ->
+               forall pre td', (pend', j, m) :: rest = pre ++ td' -> lt_top ex td').
+    { intros j m Hjm pre td' E. destruct pre as [|e' pre].
+      - simpl in E. subst td'. exact Hjm.
+      - simpl in E. injection E as _ E2. eapply Hrest_lt. exact E2. }
+    (* the plain cases: the popped element is not a disjunct *)
+    assert (Hplain : is_disj (o, tcx) = false ->
+              exists r k',
+                (if err
+                 then match unwind ((pend', idx, mark) :: rest) (S k) with
+                      | (Some td', k3) => get_next f err td' ex fl k3
+                      | (None, k3) => Some (GFail, k3)
+                      end
+                 else Some (GNext (o, tcx) ((pend', idx, mark) :: rest) ex fl, S k)) = Some (r, k') /\
+                gn_post td ex fl k r k').
+    { intros Hnd.
+      assert (Hlt : 1 <= idx -> mark < len ex) by (intros Hi; apply HS3; [exact Hi | exact Hnd]).
+      assert (HIp : Inv ((pend', idx, mark) :: rest) ex fl) by (eapply Inv_pop_front; [exact HI | exact Hnd]).
+      pose proof (Hpop_phi idx mark) as HPp.
+      destruct err.
+      - apply Hunw; [exact HIp | apply Hsuf; exact Hlt | apply Hpop_sz | lia | lia].
+      - eexists _, _. split; [reflexivity|]. unfold gn_post.
+        split; [exact Hp|]. split; [exact HIp|].
+        split; [apply lt_top_hand_ok; exact Hlt|]. split; [discriminate|]. lia. }
+    cbn [get_next].
+    destruct tcx as [t p i | n]; [|apply Hplain; reflexivity].
+    destruct t as [ | p' | e sz | es | ents star | ents | alts]; try (apply Hplain; reflexivity).
+    (* a disjunct *)
+    destruct (Nat.ltb 0 idx) eqn:Eidx.
+    + apply Nat.ltb_lt in Eidx.
+      destruct err; cbn [negb].
+      * (* the alternative tried last has failed *)
+        destruct (nth_error alts (idx - 1)) as [a|] eqn:Ea.
+        2:{ eexists _, _. split; [reflexivity|]. unfold gn_post. lia. }
+        assert (He : len ex = mark -> In (o, a) fl).
+        { intros Hl. specialize (HE eq_refl). unfold td, err_ok in HE. cbn [fst snd] in HE.
+          apply (HE ltac:(lia) (o, a)); [|exact Hl]. unfold cur_alt. simpl. rewrite Ea. reflexivity. }
+        destruct (Inv_fail o alts p i pend' idx mark rest ex fl a HI ltac:(lia) Ea He)
+          as (F1 & F2 & F3 & F4 & F5 & F6).
+        set (ex' := rollback ex mark) in *. set (fl' := (o, a) :: fl) in *.
+        assert (HPf : forall td', W td' <= W td -> Phi td' ex' fl' + (W td - W td') <= Phi td ex fl).
+        { intros td' Hw. destruct (Nat.lt_ge_cases mark (len ex)) as [Hl|Hl].
+          - pose proof (Phi_fail_new td td' ex ex' fl (o, a) F5 (F6 Hl) Hw). unfold fl'. lia.
+          - unfold ex'. rewrite rollback_all by exact Hl. apply Phi_fail_old. exact Hw. }
+        apply todo_ok_cons in HT. destruct HT as [HT1 HT2].
+        destruct (Nat.ltb idx (len alts)) eqn:Elt.
+        -- apply Nat.ltb_lt in Elt.
+           destruct (nth_error alts idx) as [c|] eqn:En; [|apply nth_error_None in En; unfold len in *; lia].
+           eexists _, _. split; [reflexivity|]. unfold gn_post.
+           pose proof (W_alt_step o alts p i pend' idx mark rest ltac:(lia) Elt) as HA.
+           specialize (HPf (((o, CRep (TDisj alts) p i) :: pend', S idx, mark) :: rest)).
+           assert (inU (o, c)).
+           { destruct Hp as [Ho Hc]. split; [exact Ho|]. simpl.
+             apply (UC_kids tc c0 (CRep (TDisj alts) p i)); [exact Hc|]. simpl. eapply nth_error_In; eauto. }
+           split; [assumption|]. split.
+           { split; [apply todo_ok_cons; split; [exact HT1|exact HT2]|]. split; [exact F2|]. split; [exact F3|].
+             split; [split|].
+             - intros _. cbn [fst snd]. split; [lia|]. intros q _ Hl. lia.
+             - unfold sb. cbn [fst snd Nat.eqb]. rewrite F1, Nat.min_id. exact F4.
+             - intros _ Hfd. simpl in Hfd. discriminate. }
+           split.
+           { intros _ q Hq _. cbn [fst snd] in Hq. unfold cur_alt in Hq. simpl in Hq.
+             rewrite Nat.sub_0_r in Hq. rewrite En in Hq. congruence. }
+           split; [discriminate|]. unfold td in *. unfold pend in *. lia.
+        -- (* no alternative is left *)
+           apply Hunw.
+           ++ split; [apply todo_ok_cons; split; [intros q Hq; apply HT1; right; exact Hq | exact HT2]|].
+              split; [exact F2|]. split; [exact F3|]. split; [split|].
+              ** intros Hi. simpl in Hi. lia.
+              ** unfold sb. cbn [fst snd Nat.eqb]. rewrite F1. exact F4.
+              ** intros Hi. simpl in Hi. lia.
+           ++ intros pre td' E. destruct pre as [|e' pre].
+              ** simpl in E. subst td'. intros Hi. simpl in Hi. lia.
+              ** simpl in E. injection E as _ E2. eapply stk_lt_top; [exact F4 | lia | exact E2].
+           ++ apply Hpop_sz.
+           ++ specialize (HPf ((pend', 0, mark) :: rest)). specialize (Hpop_w 0 mark). lia.
+           ++ specialize (HPf ((pend', 0, mark) :: rest)). specialize (Hpop_w 0 mark). lia.
+      * (* the disjunct in progress has matched *)
+        apply Hcont; [eapply Inv_pop_reset; exact HI | discriminate | apply Hpop_sz | |];
+          specialize (Hpop_phi 0 mark); lia.
+    + apply Nat.ltb_ge in Eidx. assert (idx = 0) by lia. subst idx.
+      destruct err.
+      * apply Hunw; [eapply Inv_pop_reset; exact HI | apply Hsuf; lia | apply Hpop_sz | |];
+          specialize (Hpop_phi 0 mark); lia.
+      * destruct alts as [|c alts'].
+        -- eexists _, _. split; [reflexivity|]. unfold gn_post. lia.
+        -- eexists _, _. split; [reflexivity|]. unfold gn_post.
+           assert (inU (o, c)).
+           { destruct Hp as [Ho Hc]. split; [exact Ho|]. simpl.
+             apply (UC_kids tc c0 (CRep (TDisj (c :: alts')) p i)); [exact Hc|]. simpl. left. reflexivity. }
+           pose proof (W_open_step o (c :: alts') p i pend' mark (len ex) rest) as HA.
+           split; [assumption|]. split; [apply Inv_open with (mark := mark); exact HI|].
+           split.
+           { intros _ q Hq _. cbn [fst snd] in Hq. unfold cur_alt in Hq. simpl in Hq. congruence. }
+           split; [discriminate|]. unfold Phi, td in *. unfold pend in *. lia.
 Qed.
 
-(* ---------- the loop ---------- *)
-Lemma run_terminates : forall n td ex err k, todo_ok td -> Phi td ex < n ->
-  fst (run opq oc tc n td ex err k) <> Stuck /\ snd (run opq oc tc n td ex err k) <= k + 5 * Phi td ex + 2.
-Proof.
-  induction n as [|n IH]; intros td ex err k Hok Hn; [lia|].
-  simpl. destruct (step opq oc tc td ex err k) as [res k'] eqn:E.
-  pose proof (step_spec td ex err k res k' Hok E) as S.
-  destruct res as [td' ex' err'|x].
-  - destruct S as (Hok' & Hphi & Hk). destruct (IH td' ex' err' k' Hok' ltac:(lia)) as [A B].
-    split; [exact A|lia].
-  - destruct S as [A B]. simpl. split; [exact A|]. unfold Phi. lia.
-Qed.
-
-Lemma Phi_init o c : inU (o, c) -> Phi [([(o, c)], 0)] [] < step_bound oc tc o0 c0.
-Proof.
-  intros H. unfold Phi, step_bound. fold UO UC FO FC. fold K WP.
-  assert (uncov [] <= len UO * len UC).
-  { unfold uncov. etransitivity; [apply filter_len_le|]. unfold UP, len, pend. rewrite prod_length. lia. }
-  assert (W [([(o, c)], 0)] <= 1 + K).
-  { simpl. unfold set_w. simpl. pose proof (front_w_le (o, c) 0 H). lia. }
-  assert (uncov [] * (WP + 1) <= len UO * len UC * (WP + 1)) by (apply Nat.mul_le_mono_r; assumption).
-  unfold K in *. lia.
-Qed.
 End Term.
-
-(* more fuel does not change the answer of a finished run *)
-Lemma run_mono opq oc tc : forall n m td ex err k, fst (run opq oc tc n td ex err k) <> Stuck -> n <= m ->
-  run opq oc tc m td ex err k = run opq oc tc n td ex err k.
-Proof.
-  induction n as [|n IH]; intros m td ex err k H L; [simpl in H; congruence|].
-  destruct m as [|m]; [lia|]. simpl in *.
-  destruct (step opq oc tc td ex err k) as [[td' ex' err'|x] k']; [|reflexivity].
-  apply IH; [exact H|lia].
-Qed.
-
-
-
-(* ---------- the theorems ---------- *)
-Theorem run_root_terminates opq oc tc o c n :
-  step_bound oc tc o c <= n ->
-  fst (run opq oc tc n [([(o, c)], 0)] [] None 0) <> Stuck /\
-  snd (run opq oc tc n [([(o, c)], 0)] [] None 0) <= 5 * step_bound oc tc o c + 2.
-Proof.
-  intros Hn.
-  assert (Hin : inU oc tc o c (o, c)) by (split; [apply UO_root | apply UC_root]).
-  assert (Hok : todo_ok oc tc o c [([(o, c)], 0)]).
-  { constructor; [|constructor]. intros p [Hp|[]]. subst p. exact Hin. }
-  pose proof (Phi_init oc tc o c o c Hin) as HP.
-  destruct (run_terminates opq oc tc o c _ _ [] None 0 Hok HP) as [A B].
-  rewrite (run_mono opq oc tc _ n _ _ _ _ A Hn). split; [exact A|lia].
-Qed.
-
-Theorem check_fuel_terminates opq oc tc o c r n :
-  resolve tc c = Some r -> step_bound oc tc o (norm_chk (rep_chk r)) <= n ->
-  fst (check_fuel opq oc tc n o c) <> Stuck /\
-  snd (check_fuel opq oc tc n o c) <= 5 * step_bound oc tc o (norm_chk (rep_chk r)) + 2.
-Proof. intros R Hn. unfold check_fuel. rewrite R. apply run_root_terminates. exact Hn. Qed.
-
-(* the verdict does not depend on the fuel once the bound is reached: running again gives the same answer *)
-Theorem check_fuel_deterministic opq oc tc o c r n m :
-  resolve tc c = Some r -> step_bound oc tc o (norm_chk (rep_chk r)) <= n -> n <= m ->
-  check_fuel opq oc tc m o c = check_fuel opq oc tc n o c.
-Proof.
-  intros R Hn Hm. unfold check_fuel. rewrite R. apply run_mono; [|exact Hm].
-  apply run_root_terminates. exact Hn.
-Qed.
-
-(* ---------- the binary-fuel loop of the executable entry is the same loop ---------- *)
-Section RunPos.
-Variable opq : N -> obj -> bool.
-Variable oc : octx.
-Variable tc : tctx.
-
-Fixpoint run_rs (n : nat) (s : rs) : rs :=
-  match n with O => s | S n' => run_rs n' (step_rs opq oc tc s) end.
-
-Lemma run_rs_stop n o k : run_rs n (RStop o k) = RStop o k.
-Proof. induction n; simpl; auto. Qed.
-
-Lemma run_rs_add a b s : run_rs (a + b) s = run_rs b (run_rs a s).
-Proof. revert s. induction a as [|a IH]; intros s; simpl; [reflexivity|apply IH]. Qed.
-
-Lemma run_pos_rs : forall p s, run_pos opq oc tc p s = run_rs (Pos.to_nat p) s.
-Proof.
-  induction p as [p IH|p IH|]; intros s; destruct s as [td ex err k|o k]; try (rewrite run_rs_stop; reflexivity).
-  - cbn [run_pos]. rewrite !IH. rewrite Pos2Nat.inj_xI.
-    replace (S (2 * Pos.to_nat p)) with (1 + (Pos.to_nat p + Pos.to_nat p)) by lia.
-    rewrite !run_rs_add. reflexivity.
-  - cbn [run_pos]. rewrite !IH. rewrite Pos2Nat.inj_xO.
-    replace (2 * Pos.to_nat p) with (Pos.to_nat p + Pos.to_nat p) by lia.
-    rewrite run_rs_add. reflexivity.
-  - reflexivity.
-Qed.
-
-Lemma run_rs_run : forall n td ex err k,
-  rs_result (run_rs n (RCont td ex err k)) = run opq oc tc n td ex err k.
-Proof.
-  induction n as [|n IH]; intros td ex err k; [reflexivity|].
-  simpl. destruct (step opq oc tc td ex err k) as [[td' ex' err'|o] k'].
-  - apply IH.
-  - rewrite run_rs_stop. reflexivity.
-Qed.
-
-Lemma check_N_fuel n o c : check_N opq oc tc n o c = check_fuel opq oc tc (N.to_nat n) o c.
-Proof.
-  unfold check_N, check_fuel. destruct (resolve tc c) as [r|]; [|reflexivity].
-  destruct n as [|p]; [reflexivity|]. simpl run_N. rewrite run_pos_rs. apply run_rs_run.
-Qed.
-End RunPos.
-
-Lemma step_bound_N_nat oc tc o c : N.to_nat (step_bound_N oc tc o c) = step_bound oc tc o c.
-Proof.
-  unfold step_bound_N, step_bound, bound_push, bound_K.
-  set (a := len (uni_objs oc o)). set (b := len (uni_chks tc c)).
-  set (fo := fan_o (uni_objs oc o)). set (fc := fan_c (uni_chks tc c)). lia.
-Qed.
-
-Theorem check_terminates opq oc tc o c r :
-  resolve tc c = Some r ->
-  fst (check opq oc tc o c) <> Stuck /\
-  snd (check opq oc tc o c) <= 5 * step_bound oc tc o (norm_chk (rep_chk r)) + 2.
-Proof.
-  intros R. unfold check. rewrite R. rewrite check_N_fuel, step_bound_N_nat.
-  apply (check_fuel_terminates opq oc tc o c r _ R). lia.
-Qed.
-
-(* with an undefined root name the answer is immediate *)
-Lemma check_unresolved opq oc tc o c : resolve tc c = None -> check opq oc tc o c = (SpecErr EUnknown, 0).
-Proof. intros R. unfold check. rewrite R. reflexivity. Qed.
